@@ -395,6 +395,16 @@ class Pred:
     def __and__(self, o):
         return Pred.conj([self, o])
 
+    # a comparison of arrays is a boolean array: the method spellings of the reductions used on masks
+    def sum(self, *a, **k):
+        return Sym('count_nonzero', self)
+
+    def any(self, *a, **k):
+        return Sym('any', self)
+
+    def all(self, *a, **k):
+        return self
+
     def __or__(self, o):
         return Pred.disj([self, o])
 
